@@ -381,11 +381,28 @@ func TestExample(t *testing.T) {
 	rapid.Check(t, func(t *rapid.T) {
 		var c Case
 		feature := false
-		fam := rapid.IntRange(0, 10).Draw(t, "family")
-		if fam > 7 {
+		fam := rapid.IntRange(0, 12).Draw(t, "family")
+		if fam > 9 {
 			fam = 5 // (reference topologies yield a case in one of four draws only: they are drawn more often)
 		}
 		switch fam {
+		case 8: // a key shortcut whose string type refers to other types: the key written has to be one they accept
+			sText := rapid.SampledFrom([]string{`"abc"`, `"abc" // {minLength: 2}`, `@s2`, `"abc" // {regex: "^a"}`, `@s2 | @s3`}).Draw(t, "s")
+			kText := rapid.SampledFrom([]string{`"xyz" // {type: "@s"}`, `"xyz" // {or: ["@s", "@s2"]}`, `@s`, `"xyz" // {or: [{type: "string", minLength: 5}, "@s"]}`,
+				`"xyz" // {or: ["@s2", {type: "string", regex: "^x"}]}`, `@s | @s2`}).Draw(t, "k")
+			s2 := rapid.SampledFrom([]string{`"def"`, `"de" // {enum: ["de", "fg"]}`, `"defg" // {maxLength: 4}`}).Draw(t, "s2")
+			root := rapid.SampledFrom([]string{"{\n  @k: 1\n}", "{\n  @k: 1, // {optional: true}\n  \"id\": 2\n}", "[\n  {\n    @k: [1]\n  }\n]", "{\n  \"m\": {\n    @k: @s\n  }\n}"}).Draw(t, "root")
+			c = Case{Spec: lib.Spec{Schema: root, Types: []lib.Named{{Name: "@k", Text: kText}, {Name: "@s", Text: sText}, {Name: "@s2", Text: s2}, {Name: "@s3", Text: `"ghi"`}}}}
+			feature = true
+			run.Label("family:key-type-refers-to-types")
+		case 9: // arrays whose rule does not reach the item that is left out at the recursion cut-off
+			node := rapid.SampledFrom([]string{"{\n  \"v\": 1,\n  \"next\": @node // {nullable: true}\n}", "{\n  \"v\": 1,\n  \"next\": @node // {optional: true}\n}",
+				"{\n  \"v\": 1,\n  \"kids\": [@node]\n}", "{\n  \"v\": 1,\n  \"kids\": [ // {minItems: 0}\n    @node\n  ]\n}"}).Draw(t, "node")
+			root := rapid.SampledFrom([]string{"[ // {minItems: 0}\n  @node\n]", "[ // {minItems: 1}\n  1,\n  @node\n]", "{\n  \"items\": [ // {minItems: 0, maxItems: 10}\n    @node\n  ]\n}",
+				"[ // {maxItems: 5}\n  @node\n]", "[ // {minItems: 2}\n  1,\n  2,\n  @node\n]", "{\n  \"a\": [ // {minItems: 1}\n    \"s\",\n    @node\n  ],\n  \"b\": @node // {optional: true}\n}"}).Draw(t, "root")
+			c = Case{Spec: lib.Spec{Schema: root, Types: []lib.Named{{Name: "@node", Text: node}}}}
+			feature = true
+			run.Label("family:array-rule-beside-the-cut-off")
 		case 6: // types the root knows only through other types (they were added to a type, not to the root)
 			id := lib.Named{Name: "@id", Text: rapid.SampledFrom([]string{"1 // {min: 1}", "\"abc\" // {minLength: 2}", "\"kab\" // {regex: \"^k\"}"}).Draw(t, "innerId")}
 			base := lib.Named{Name: "@base", Text: "{\n  \"created\": \"2021-01-01\", // {type: \"date\"}\n  \"by\": @id // {optional: true}\n}", Inner: []lib.Named{id}}
